@@ -6,6 +6,7 @@
 #include "harness/bridge.hpp"
 #include "uciprotocol.hpp"
 #include "evaluate.hpp"
+#include "harness/evalsanity.hpp"
 #include <thread>
 #include <mutex>
 #include <condition_variable>
@@ -160,6 +161,7 @@ inline void warm() {
     br::initTexel();
     auto et = Evaluate::getEvalHashTables();
     (void)et;
+    evs::check();
 }
 
 // ------------------------------------------------------------------------------------------------ transcript analysis
